@@ -837,6 +837,9 @@ impl Axecutor {
 
         // The entry frame (plus alignment padding) lives above the requested stack space
         let frame_size = (stack_layout.len() as u64) * 8 + 48;
+        let total_size = length
+            .checked_add(frame_size)
+            .ok_or_else(|| AxError::from(format!("Stack length {length:#x} is too large")))?;
 
         let mut stack_start: u64 = 0x1000;
         loop {
@@ -847,7 +850,7 @@ impl Axecutor {
             }
 
             if self
-                .mem_init_zero_named(stack_start, length + frame_size, "Stack".to_string())
+                .mem_init_zero_named(stack_start, total_size, "Stack".to_string())
                 .is_ok()
             {
                 break;
@@ -857,7 +860,7 @@ impl Axecutor {
 
         // TODO: auxiliary vector
         // Make sure the stack is aligned to 16 bytes
-        let mut stack_top = (stack_start + length + frame_size - 16) & !0xf;
+        let mut stack_top = (stack_start + total_size - 16) & !0xf;
         if stack_layout.len() % 2 == 1 {
             // However, if we push an uneven amount of 64 bit values, we need to adjust
             stack_top -= 8;
